@@ -7,3 +7,4 @@ open AgdbDb
 #print axioms C08_insert_edges_unresolved
 #print axioms C08_remove_node_cascade
 #print axioms C08_counts
+#print axioms C08_node_count
